@@ -21,10 +21,15 @@ Fixpoint doc_keys_unique (fuel : nat) (d : doc) : bool :=
 Definition strict_accepts (t : ty) (d : doc) : bool := accepts 40 t d && doc_keys_unique 40 d.
 
 (* ---- the schema as a validator (keys, required, enum) ---- *)
-Inductive sviol := SUnknownKey (k : str) | SRequired (k : str) | SEnum (v : str) | SShape.
+Inductive sviol := SUnknownKey (k : str) | SRequired (k : str) | SEnum (v : str) | SShape | SNot | SConst (v : str).
 
 Definition jstrs (j : json) : list str := match j with JArr l => flat_map (fun x => match x with JStr s => [s] | _ => [] end) l | _ => [] end.
 
+Definition jarr (j : json) : list json := match j with JArr l => l | _ => [] end.
+Definition nilb {A} (l : list A) : bool := match l with [] => true | _ => false end.
+
+(* [properties], [additionalProperties], [required], [items], [enum] as before; and the combinators: [not],
+   [if]/[then]/[else], [allOf], [anyOf] / [oneOf] (read as "some branch validates"), [const] *)
 Fixpoint validates (fuel : nat) (defs : list (str * json)) (node : json) (d : doc) : list sviol :=
   match fuel with
   | O => [SShape]
@@ -37,28 +42,52 @@ Fixpoint validates (fuel : nat) (defs : list (str * json)) (node : json) (d : do
           | None => [SShape]
           end
       | _ =>
-          match d with
-          | DMap kvs =>
-              let props := match jget "properties" o with Some (JObj p) => p | _ => [] end in
-              let addl := jget "additionalProperties" o in
-              flat_map (fun kv =>
-                match find (fun p => seqb (fst p) (fst kv)) props with
-                | Some (_, sub) => validates n defs sub (snd kv)
-                | None => match addl with
-                          | Some (JBool false) => [SUnknownKey (fst kv)]
-                          | Some (JObj ap) => validates n defs (JObj ap) (snd kv)
-                          | _ => []
-                          end
-                end) kvs
-              ++ flat_map (fun k => if existsb (fun kv => seqb (fst kv) k) kvs then [] else [SRequired k])
-                          (match jget "required" o with Some r => jstrs r | None => [] end)
-          | DSeq l => match jget "items" o with Some it => flat_map (validates n defs it) l | None => [] end
-          | DScalar s =>
-              match jget "enum" o with
-              | Some e => if existsb (seqb s) (jstrs e) then [] else [SEnum s]
+          (match d with
+           | DMap kvs =>
+               let props := match jget "properties" o with Some (JObj p) => p | _ => [] end in
+               let addl := jget "additionalProperties" o in
+               flat_map (fun kv =>
+                 match find (fun p => seqb (fst p) (fst kv)) props with
+                 | Some (_, sub) => validates n defs sub (snd kv)
+                 | None => match addl with
+                           | Some (JBool false) => [SUnknownKey (fst kv)]
+                           | Some (JObj ap) => validates n defs (JObj ap) (snd kv)
+                           | _ => []
+                           end
+                 end) kvs
+               ++ flat_map (fun k => if existsb (fun kv => seqb (fst kv) k) kvs then [] else [SRequired k])
+                           (match jget "required" o with Some r => jstrs r | None => [] end)
+           | DSeq l => match jget "items" o with Some it => flat_map (validates n defs it) l | None => [] end
+           | DScalar s =>
+               (match jget "enum" o with
+                | Some e => if existsb (seqb s) (jstrs e) then [] else [SEnum s]
+                | None => []
+                end)
+               ++ (match jget "const" o with
+                   | Some (JStr c) => if seqb s c then [] else [SConst s]
+                   | _ => []
+                   end)
+           end)
+          ++ (match jget "not" o with
+              | Some sub => if nilb (validates n defs sub d) then [SNot] else []
               | None => []
-              end
-          end
+              end)
+          ++ (match jget "if" o with
+              | Some c =>
+                  if nilb (validates n defs c d)
+                  then match jget "then" o with Some t => validates n defs t d | None => [] end
+                  else match jget "else" o with Some e => validates n defs e d | None => [] end
+              | None => []
+              end)
+          ++ flat_map (fun sub => validates n defs sub d) (match jget "allOf" o with Some a => jarr a | None => [] end)
+          ++ (match jget "anyOf" o with
+              | Some a => if existsb (fun sub => nilb (validates n defs sub d)) (jarr a) then [] else [SShape]
+              | None => []
+              end)
+          ++ (match jget "oneOf" o with
+              | Some a => if existsb (fun sub => nilb (validates n defs sub d)) (jarr a) then [] else [SShape]
+              | None => []
+              end)
       end
   end.
 
@@ -66,3 +95,35 @@ Definition schema_validates (s : json) (d : doc) : list sviol :=
   validates 40 (match jget "$defs" (jobj s) with Some (JObj defs) => defs | _ => [] end) s d.
 
 Definition is_unknown_key (v : sviol) : bool := match v with SUnknownKey _ => true | _ => false end.
+
+(* ---- which JSON-schema keywords the emitted schema uses ----
+   The validator above understands $ref/$defs, properties, additionalProperties, required, enum, items, const and
+   the combinators not, if/then/else, allOf, anyOf, oneOf; the annotation keywords carry no constraint. Any other
+   keyword (pattern, minLength, dependentRequired ...) would be a constraint the validator does not see. *)
+Fixpoint schema_keywords (fuel : nat) (j : json) : list str :=
+  match fuel with
+  | O => []
+  | S n =>
+      match j with
+      | JObj ms =>
+          flat_map (fun kv =>
+            let k := fst kv in
+            if seqb k (B "properties") || seqb k (B "$defs") || seqb k (B "definitions") || seqb k (B "patternProperties") then
+              k :: match snd kv with JObj subs => flat_map (fun s => schema_keywords n (snd s)) subs | _ => [] end
+            else if seqb k (B "enum") || seqb k (B "required") || seqb k (B "examples") || seqb k (B "default") || seqb k (B "type") then [k]
+            else k :: match snd kv with
+                      | JObj _ => schema_keywords n (snd kv)
+                      | JArr l => flat_map (schema_keywords n) l
+                      | _ => []
+                      end) ms
+      | _ => []
+      end
+  end.
+
+Definition understood_keywords : list str :=
+  [B "$schema"; B "$id"; B "$ref"; B "$defs"; B "properties"; B "additionalProperties"; B "required"; B "enum"; B "items";
+   B "type"; B "format"; B "title"; B "description"; B "default"; B "examples"; B "$comment";
+   B "not"; B "if"; B "then"; B "else"; B "allOf"; B "anyOf"; B "oneOf"; B "const"].
+
+Definition foreign_keywords (schema : json) : list str :=
+  filter (fun k => negb (existsb (seqb k) understood_keywords)) (schema_keywords 40 schema).
